@@ -343,6 +343,8 @@ def for_loop(it, st, fr):
     havoc_state(it, fr, spec, (a | a2) - tnames, m | m2, extra_frames=sink_frames(it))
     i = it.fresh(ivar.strip("_") or "i", "Int")
     it.ctx.assume(And(smt.Cmp("<=", lo, i), smt.Cmp("<=", i, hi)))
+    for fn in list(it.ctx.univ):
+        it.ctx.assume(fn(i))      # ground instance of an assumed universal fact at the loop index
     for cl, t in eval_clauses(it, spec.inv, fr, dict(base_extra, **{ivar: i})):
         it.ctx.assume(t)
     if isinstance(itv, SymFile):
